@@ -7,7 +7,7 @@ From V.model Require Import Base RelLex RelParse RelAcc RelGrammar.
 From V.proofs Require Import BaseP RelLexP RelParseP RelGrammarLexP.
 Set Default Timeout 60.
 
-Transparent bump skip_ws error expect in_node out_of_fuel version_text version_colons.
+Transparent bump skip_ws error expect in_node out_of_fuel version_text version_run cur_is_vtok.
 
 (* ---- basic moves on explicit states ---- *)
 Definition hd_kind (ts : list rtoken) : option rkind := match ts with [] => None | (k, _) :: _ => Some k end.
@@ -131,30 +131,43 @@ Definition vtail (v : vclause) : list str := match v_epoch v with Some _ => v_ve
 Lemma vtext_toks_shape v : vtext_toks v = (IDENT, vhead v) :: colon_toks (vtail v).
 Proof. unfold vtext_toks, vhead, vtail, colon_toks. destruct (v_epoch v); reflexivity. Qed.
 
-Lemma version_colons_pieces ps : forall fuel w x r out n fl, length ps <= fuel ->
-  version_colons fuel (mk_pst (colon_toks ps ++ ws_toks w ++ (R_PARENS, x) :: r) out n fl) =
-  mk_pst (ws_toks w ++ (R_PARENS, x) :: r) (out ++ elems (colon_toks ps)) n fl.
+Lemma cur_is_vtok_eq ts out n fl :
+  cur_is_vtok (mk_pst ts out n fl) =
+  match hd_kind ts with Some IDENT | Some COLON => true | _ => false end.
+Proof. unfold cur_is_vtok. rewrite !cur_is_eq. destruct (hd_kind ts) as [k|]; [destruct k|]; reflexivity. Qed.
+
+Lemma cur_is_vtok_stop w x r out n fl : cur_is_vtok (mk_pst (ws_toks w ++ (R_PARENS, x) :: r) out n fl) = false.
+Proof. unfold cur_is_vtok. rewrite !cur_is_ws_false; reflexivity. Qed.
+
+(* the run of IDENT and COLON tokens of a version is consumed as a whole *)
+Lemma version_run_all l : forall fuel w x r out n fl,
+  Forall (fun t => fst t = IDENT \/ fst t = COLON) l -> length l <= fuel ->
+  version_run fuel (mk_pst (l ++ ws_toks w ++ (R_PARENS, x) :: r) out n fl) =
+  mk_pst (ws_toks w ++ (R_PARENS, x) :: r) (out ++ elems l) n fl.
 Proof.
-  induction ps as [|p ps IH]; intros fuel w x r out n fl Hf.
-  - cbn [colon_toks flat_map app elems map]. rewrite app_nil_r.
-    destruct fuel; cbn [version_colons]; rewrite cur_is_ws_false; reflexivity.
-  - destruct fuel as [|f]; [cbn in Hf; lia|]. cbn [colon_toks flat_map app version_colons].
-    rewrite cur_is_eq. cbn [hd_kind rkind_eqb rkind_code N.eqb Pos.eqb]. rewrite bump_cons, expect_hit_ident.
-    fold (colon_toks ps). rewrite IH by (cbn in Hf; lia).
-    change (elems ((COLON, [58%N]) :: (IDENT, p) :: colon_toks ps)) with (Tok COLON [58%N] :: Tok IDENT p :: elems (colon_toks ps)).
-    rewrite <- !app_assoc. reflexivity.
+  induction l as [|[k s] t IH]; intros fuel w x r out n fl Hl Hf.
+  - cbn [app elems map]. rewrite app_nil_r. destruct fuel; cbn [version_run]; rewrite cur_is_vtok_stop; reflexivity.
+  - inversion Hl as [|? ? Hk Ht]; subst. cbn [fst] in Hk.
+    destruct fuel as [|f]; [cbn in Hf; lia|]. cbn [app version_run]. rewrite cur_is_vtok_eq. cbn [hd_kind].
+    destruct Hk as [-> | ->]; rewrite bump_cons, IH by (assumption || (cbn in Hf; lia));
+      change (elems ((?k, s) :: t)) with (Tok k s :: elems t); rewrite <- app_assoc; reflexivity.
+Qed.
+
+Lemma vtext_toks_kinds v : Forall (fun t => fst t = IDENT \/ fst t = COLON) (vtext_toks v).
+Proof.
+  rewrite vtext_toks_shape. constructor; [left; reflexivity|]. unfold colon_toks.
+  induction (vtail v) as [|p ps IH]; cbn [flat_map app]; [constructor|].
+  constructor; [right; reflexivity|]. constructor; [left; reflexivity|exact IH].
 Qed.
 
 Lemma version_text_vtext v w x r out n fl :
   version_text (mk_pst (vtext_toks v ++ ws_toks w ++ (R_PARENS, x) :: r) out n fl) =
   mk_pst (ws_toks w ++ (R_PARENS, x) :: r) (out ++ elems (vtext_toks v)) n fl.
 Proof.
-  rewrite vtext_toks_shape. unfold version_text. cbn [app].
-  rewrite cur_is_eq. cbn [hd_kind rkind_eqb rkind_code N.eqb]. cbv zeta. rewrite bump_cons.
-  rewrite version_colons_pieces.
-  - cbn [elems map tk fst snd]. rewrite <- app_assoc. reflexivity.
-  - unfold loop_fuel. cbn [toks]. rewrite app_length. unfold colon_toks.
-    clear. induction (vtail v) as [|p ps IH]; cbn [flat_map length app]; lia.
+  unfold version_text. rewrite cur_is_vtok_eq.
+  assert (E : hd_kind (vtext_toks v ++ ws_toks w ++ (R_PARENS, x) :: r) = Some IDENT) by (rewrite vtext_toks_shape; reflexivity).
+  rewrite E. apply version_run_all; [apply vtext_toks_kinds|].
+  unfold loop_fuel. cbn [toks]. rewrite app_length. lia.
 Qed.
 
 Lemma nowsk_vop o x : nowsk (vop_toks o ++ x).
